@@ -351,3 +351,129 @@ def check_raw_unicode(line):
         else:
             continue
     return probs
+
+
+# ----------------------------------------------------------------------------------------
+FIXED = {"uint1": 1, "uint2": 2, "uint4": 4, "uint8": 8, "int4": 4}
+COUNTED = {"string1": ("uint1", 1, "bytes"), "bytes1": ("uint1", 1, "bytes"), "unicodestring1": ("uint1", 1, "utf8"),
+           "string4": ("int4", 4, "bytes"), "bytes4": ("uint4", 4, "bytes"), "unicodestring4": ("uint4", 4, "utf8"),
+           "bytes8": ("uint8", 8, "bytes"), "unicodestring8": ("uint8", 8, "utf8"), "bytearray8": ("uint8", 8, "bytes")}
+
+
+def int_bounds(v, ty):
+    if isinstance(v, int):
+        return v, v
+    if is_sym(v):
+        return v.lo, v.hi
+    return None, None
+
+
+def decode_one(cur, spec):
+    """decode one opcode at the cursor.  Returns (row or None, value-info dict, problems)."""
+    b = cur.take_byte()
+    if b is None:
+        return None, {}, ["opcode byte is not a single byte part: %r" % (cur.peek(),)]
+    if not isinstance(b, int):
+        return None, {}, ["opcode byte is not a constant: %r" % (b,)]
+    row = spec.by_code.get(b)
+    if row is None:
+        return None, {}, ["unknown opcode byte 0x%02x" % b]
+    arg = row["arg"]
+    info = {}
+    probs = []
+    if arg is None:
+        return row, info, probs
+    if arg in FIXED:
+        v, ty, pr = take_fixed_int(cur, FIXED[arg])
+        probs += pr
+        info["value"] = v
+        info["ty"] = ty
+        if arg == "int4" and v is not None:
+            lo, hi = int_bounds(strip_casts(v), ty)
+            info["int4_range"] = (lo, hi)
+        return row, info, probs
+    if arg == "float8":
+        p = cur.peek()
+        if p is not None and p[0] == "int" and p[2] in ("f64",) and p[5] - p[4] == 8:
+            cur.take_part()
+            if p[3] != "be":
+                probs.append("BINFLOAT argument written %s-endian, reader expects big-endian" % p[3])
+        elif cur.take_lit(8) is None:
+            probs.append("float8 argument is not an 8-byte float: %r" % (p,))
+        return row, info, probs
+    if arg in COUNTED:
+        lk, n, enc = COUNTED[arg]
+        v, ty, pr = take_fixed_int(cur, n)
+        probs += pr
+        payload = cur.rest()
+        if v is not None:
+            if not same_len_term(v, payload):
+                probs.append("length prefix %r is not the byte length of the payload %r" % (v, payload))
+            lo, hi = payload_bytes_len(payload)
+            cap = (1 << (8 * n)) - 1 if lk != "int4" else (1 << 31) - 1
+            if hi is None or hi > cap:
+                probs.append("payload length (up to %r) may not fit the %d-byte length prefix" % (hi, n))
+            sv = v
+            if is_sym(sv) and sv.op == "cast":
+                inner = sv.args[0]
+                tlo, thi = ty_range(sv.ty)
+                if is_sym(inner) and (inner.lo < tlo or inner.hi > thi):
+                    probs.append("length %r is truncated by the cast to %s" % (inner, sv.ty))
+        if enc == "utf8":
+            for p in payload:
+                if p[0] == "pay" and p[1].kind != "str" and any(c > 127 for c in p[1].charset):
+                    probs.append("unicode payload is not known to be valid UTF-8")
+                if p[0] in ("u8", "int"):
+                    probs.append("unicode payload built from raw bytes")
+        info["payload"] = payload
+        return row, info, probs
+    if arg in ("long1", "long4"):
+        n = 1 if arg == "long1" else 4
+        v, ty, pr = take_fixed_int(cur, n)
+        probs += pr
+        payload = cur.rest()
+        lo, hi = payload_bytes_len(payload)
+        if not (isinstance(v, int) and lo == hi == v):
+            probs.append("%s size field %r does not equal the number of value bytes (%r..%r)" % (arg, v, lo, hi))
+        for p in payload:
+            if p[0] == "int" and p[3] != "le":
+                probs.append("%s value bytes are not little-endian" % arg)
+        return row, info, probs
+    if arg == "stringnl_noescape_pair":
+        rest = cur.rest()
+        l1, rest, pr = check_line(rest, "stringnl_noescape")
+        probs += pr
+        if rest is not None:
+            l2, rest2, pr2 = check_line(rest, "stringnl_noescape")
+            probs += pr2
+            if rest2:
+                probs.append("bytes after the second line: %r" % (rest2,))
+        return row, info, probs
+    if arg in ("stringnl", "stringnl_noescape", "decimalnl_short", "decimalnl_long", "floatnl", "unicodestringnl"):
+        rest = cur.rest()
+        line, rest2, pr = check_line(rest, arg)
+        probs += pr
+        if rest2:
+            probs.append("bytes after the newline-terminated argument: %r" % (rest2,))
+        if line is not None:
+            info["line"] = line
+            for p in line:
+                if p[0] == "disp":
+                    info["value"] = p[1]
+                    info["ty"] = p[2]
+        return row, info, probs
+    return row, info, ["no reader model for argument type %s" % arg]
+
+
+def decode_stream(parts, spec):
+    """decode a whole sequence; returns list of (row, info, problems)"""
+    cur = Cursor(parts)
+    out = []
+    guard = 0
+    while not cur.eof():
+        row, info, probs = decode_one(cur, spec)
+        out.append((row, info, probs))
+        guard += 1
+        if row is None or guard > 10000:
+            break
+    return out
